@@ -252,6 +252,37 @@ func (o *C09) Check(x *h.Exec, ev *h.Event) {
 				x.Report("element-key", "targets", "", pr, &q)
 				return
 			}
+			// one declaration, one type: two nested targets of the same parent with
+			// the same address and the same extent must not carry different types
+			var dupProblem func(ts reference.Targets, depth int) string
+			dupProblem = func(ts reference.Targets, depth int) string {
+				for _, t := range ts {
+					seen := map[string]string{}
+					for _, n := range t.NestedTargets {
+						// (something not written has an empty extent at the start of the
+						// body: an attribute and a block type that share a name may meet there)
+						if n.RangePtr == nil || n.Type == cty.NilType || exempt(n) || n.RangePtr.Start.Byte == n.RangePtr.End.Byte {
+							continue
+						}
+						k := fmt.Sprintf("%s|%s|%d-%d", n.Addr.String(), n.RangePtr.Filename, n.RangePtr.Start.Byte, n.RangePtr.End.Byte)
+						ty := n.Type.GoString()
+						if prev, ok := seen[k]; ok && prev != ty {
+							return fmt.Sprintf("two nested targets %s with the same extent (bytes %d..%d) under %s carry different types: %s and %s", n.Addr.String(), n.RangePtr.Start.Byte, n.RangePtr.End.Byte, t.Addr.String(), prev, ty)
+						}
+						seen[k] = ty
+					}
+					if depth < 12 {
+						if pr := dupProblem(t.NestedTargets, depth+1); pr != "" {
+							return pr
+						}
+					}
+				}
+				return ""
+			}
+			if pr := dupProblem(got, 0); pr != "" {
+				x.Report("contradictory-nested", "targets", "", pr, &q)
+				return
+			}
 			// index top-level targets by (file, range)
 			type key struct {
 				file string
